@@ -4,7 +4,7 @@
    (a, b) and the final edit script e, as a stream of characters each with the mark the output gives it.
    Definitions only. *)
 From Coq Require Import List Bool ZArith Lia.
-Require Import GT.PyBase GT.Data GT.ScriptSpec GT.JsonSpec GT.JsonModel GT.RenderSpec.
+Require Import GT.PyBase GT.Data GT.ScriptSpec GT.JsonSpec GT.JsonModel GT.EqualSpec GT.RenderSpec.
 Import ListNotations.
 Open Scope Z_scope.
 
@@ -226,6 +226,86 @@ Definition nproj (side : bool) (a b : tree) (e : edit) : tree :=
   | EComp _ _ _ => proj side a b e
   | _ => if 0 <? cost e then proj side a b e else a
   end.
+
+(* ------------------------------------------------------------------ the hypotheses of the theorems, as booleans
+   (definitions only; the theorems about them are in RenderProofs.v / RenderScriptProofs.v) *)
+
+(* no list element that is a mapping is replaced (Match / Replace at a cost): the shape of finding D33, where
+   the edit is printed twice (RenderModel.from_to_twice) *)
+Fixpoint clean (inl : bool) (a : tree) (e : edit) {struct e} : bool :=
+  match e with
+  | EMatch c | EReplace c => negb ((0 <? c) && (inl && is_mapping a))
+  | EStr _ _ => true
+  | EComp k _ subs =>
+      if is_seq_kind k then
+        (fix all (ss : list sub) : bool :=
+           match ss with
+           | [] => true
+           | SPair i _ e' :: r => clean (is_lst a) (child a i) e' && all r
+           | _ :: r => all r
+           end) subs
+      else
+        match subs with
+        | [SPair _ _ ke; SPair _ _ ve] => clean false (child a 0) ke && clean false (child a 1) ve
+        | _ => true
+        end
+  end.
+
+(* ------------------------------------------------------------------ the D33 carve-out on the document alone:
+   no mapping is an element of a list of the first document (then no script can replace one there) *)
+Fixpoint nomil (t : tree) : bool :=
+  match t with
+  | Leaf _ => true
+  | Lst _ _ cs => forallb (fun c => negb (is_mapping c) && nomil c) cs
+  | Kvp _ k v => nomil k && nomil v
+  | MSet _ cs | FDict cs => forallb nomil cs
+  end.
+
+(* JSON-shaped trees: mapping members are key/value pairs with string keys; pairs occur nowhere else *)
+Definition is_str_leaf (t : tree) : bool := match t with Leaf l => lkind_eqb (lk l) KStr | _ => false end.
+Fixpoint jshape (t : tree) : bool :=
+  match t with
+  | Leaf _ => true
+  | Lst _ _ cs => forallb (fun c => negb (is_kvp c) && jshape c) cs
+  | Kvp _ k v => is_str_leaf k && negb (is_kvp v) && jshape v
+  | MSet _ cs | FDict cs => forallb (fun c => is_kvp c && jshape c) cs
+  end.
+
+(* the shape of the script that `priced` does not record: string edits are between two strings, a
+   KeyValuePairEdit lists exactly its key edit and its value edit *)
+Fixpoint shaped (a b : tree) (e : edit) {struct e} : bool :=
+  match e with
+  | EMatch _ | EReplace _ => true
+  | EStr _ _ => match a, b with
+                | Leaf x, Leaf y => lkind_eqb (lk x) KStr && lkind_eqb (lk y) KStr
+                | _, _ => false
+                end
+  | EComp k _ subs =>
+      (if is_seq_kind k then true else match subs with [SPair _ _ _; SPair _ _ _] => true | _ => false end) &&
+      (fix all (ss : list sub) : bool :=
+         match ss with
+         | [] => true
+         | SPair i j e' :: r =>
+             match nth_error (children a) i, nth_error (children b) j with
+             | Some x, Some y => shaped x y e' && all r
+             | _, _ => false
+             end
+         | _ :: r => all r
+         end) subs
+  end.
+
+(* documents json.loads can produce: JSON-shaped, not a bare key/value pair, JSON-domain value (C12's domain) *)
+Definition jdocb (t : tree) : bool := jshape t && negb (is_kvp t) && json_domainb (value_of t).
+
+(* a case inside the hypotheses of RenderProofs.C06_priced_text_all / C06_priced_marks_all: the documents are JSON
+   documents, the implementation's script is valid (C01), additive (C03), priced (C02) and shaped, and the case is
+   outside the classes of the open findings D4 (typed), D16 (nozero) and D33 (clean) *)
+Definition thm_C06 (c : render_case) : bool :=
+  let a := sc_a (rc_script c) in
+  let b := sc_b (rc_script c) in
+  let e := sc_edit (rc_script c) in
+  jdocb a && jdocb b && numtext_ok a && numtext_ok b && valid a b e && additive e && priced a b e && shaped a b e &&
+  typed a b && nozero a && nozero b && clean false a e.
 
 (* ------------------------------------------------------------------ correspondence *)
 Fixpoint stream_eqb (x y : stream) : bool :=
